@@ -47,7 +47,7 @@ claim("C05",
       "Decides: the forward-seek shortcut is reachable only with sign(target,last returned key)=GT (so seek(K) after next()->K re-seeks every "
       "source), a head is re-sought iff the target is beyond it, seek clears finished (and the pending flag whenever next reads it before writing it) before the first repositioning call and returns success on every path, and "
       "a forward seek that repositions or drops a head records the target as the new reference key; each of the four installed merger entry points (delegation between them followed) is built from the matching per-source lookup with its own key parameters over elements 0,1,2,.. of the source vector, leaving the walk only when the index has reached the size, registering and "
-      "offering every non-NULL per-source iterator exactly once and freeing on an empty result. The heap the seek rebuilds and next maintains is decided separately in the order domain: for every heap size up to 5 (6 thorough) and every ordering of the heads, heapify/push/pop/replace keep the elements and the parent<=child invariant and pop/replace/peek return a minimum. Equivalence with a single merged table over "
+      "offering every non-NULL per-source iterator exactly once and freeing on an empty result. Also decides (R7) that every iterator the merger hands out starts with its heap in heap order: an entry added without sifting (heap_add) is followed by heap_heapify before the constructor returns. The heap the seek rebuilds and next maintains is decided separately in the order domain: for every heap size up to 5 (6 thorough) and every ordering of the heads, heapify/push/pop/replace keep the elements and the parent<=child invariant and pop/replace/peek return a minimum. Equivalence with a single merged table over "
       "all histories is not decided. Also decides the dispatch wiring of the function tables.",
       "Trusts the T-cmp rows 13/14 (invariant read off merger_iter_next: after next returns K all heads are beyond K), loop bound 1 for the "
       "per-source loops, and the access-path aliasing of the evaluator.")
@@ -58,7 +58,7 @@ claim("C04",
       "its refill, a successful refill is re-sifted, success is returned only after consuming an entry; heads are folded iff keys are equal and, with a merge function, an entry is emitted only after the heap ran dry or the next head differs; the result pointer handed to the merge function is NULL at every call; "
       "no branch depends on the length of the pending key (the empty key is legal); the comparator orders exhausted entries last, returns the "
       "key comparison unchanged and consults dupsort only for equal keys with (a.val,b.val); the three heap comparison sites keep a min-heap; "
-      "the two writer-feeding loops add every yielded entry once and stop at the first refused add. Heap algorithm correctness and fold "
+      "the two writer-feeding loops add every yielded entry once and stop at the first refused add. Also decides (R12) that every iterator the merger hands out starts with its heap in heap order (heap_add is followed by heap_heapify before the constructor returns). Heap algorithm correctness and fold "
       "multiplicity over all source families are not decided. Also decides (R9) that merge, dupsort and the heap comparison are each called, and forwarded, with the closure registered with them (pairs derived from the registering functions), and (R10) the heap discipline in the order domain: for every heap size up to 5 (6 thorough) and every ordering, heapify/push/pop/replace keep the elements and the parent<=child invariant and pop/replace/peek return a minimum; re-runs C02.R3 (C04.D.*). Also decides the container contract of libmy/vector.h (the macro all buffers, restart arrays, heap arrays and entry lists are generated from) with an allocation-aware interpreter: in 36 scenarios per family (1-byte, 8-byte integer and pointer elements) every operation keeps the representation invariant, preserves the elements, meets its post-condition and stays inside live allocations.",
       "Trusts loop bound 1 (2 in thorough) for the two nested loops, that user callbacks only write through their arguments, and the "
       "role recognition of heap operands by index expression ((pos-1)>>1, 2*pos+1, +1).")
@@ -128,7 +128,7 @@ claim("C14",
       "from the iterator entry points writes reader state or the mapped bytes, and my_crc32c is the library's only mutable file-scope variable. Decides: worker jobs modify "
       "nothing on the shared writer/sorter, worker and handler effect sets do not conflict, the dispatcher does not touch a job after handing it over, caller-side accesses "
       "to handler-written fields are post-join (C13.R3 re-run); every access to a thread/resultq/threadpool field satisfies its lock discipline or a counted listed exception; "
-      "the CRC dispatch pointer is written only by the constructor-attributed detection. User callbacks, third-party libraries and the allocator are not decided.",
+      "the CRC dispatch pointer is written only by the constructor-attributed detection. Also decides (R5) that a record handed to the pool holds only allocations, buffers detached from their builder or objects moved out of the dispatcher in its pointer members - never the interior pointer of a vector the dispatching thread goes on modifying. User callbacks, third-party libraries and the allocator are not decided.",
       "Trusts T-lock/T-roles exceptions (each one named symbol with a reason), type-based field effects (no aliasing between different record types), the build's constructor support.")
 
 claim("C07",
